@@ -1,6 +1,6 @@
 use super::time::TimeConfig;
 use crate::command::types::TimeGranularity;
-use chrono::{DateTime, Datelike, TimeZone, Timelike, Utc};
+use chrono::{DateTime, Datelike, LocalResult, NaiveDateTime, Offset, TimeZone, Timelike, Utc};
 use chrono_tz::Tz;
 
 /// Calendar-aware time bucketing implementation
@@ -54,19 +54,13 @@ impl CalendarTimeBucketer {
     }
 
     fn bucket_hour<T: TimeZone>(&self, dt: DateTime<T>) -> DateTime<T> {
-        dt.date_naive()
-            .and_hms_opt(dt.hour(), 0, 0)
-            .unwrap()
-            .and_local_timezone(dt.timezone())
-            .unwrap()
+        let naive = dt.date_naive().and_hms_opt(dt.hour(), 0, 0).unwrap();
+        Self::localize(naive, &dt, true)
     }
 
     fn bucket_day<T: TimeZone>(&self, dt: DateTime<T>) -> DateTime<T> {
-        dt.date_naive()
-            .and_hms_opt(0, 0, 0)
-            .unwrap()
-            .and_local_timezone(dt.timezone())
-            .unwrap()
+        let naive = dt.date_naive().and_hms_opt(0, 0, 0).unwrap();
+        Self::localize(naive, &dt, false)
     }
 
     fn bucket_week<T: TimeZone>(&self, dt: DateTime<T>) -> DateTime<T> {
@@ -75,33 +69,72 @@ impl CalendarTimeBucketer {
             % 7;
 
         let week_start = dt.date_naive() - chrono::Duration::days(days_since_week_start as i64);
-        week_start
-            .and_hms_opt(0, 0, 0)
-            .unwrap()
-            .and_local_timezone(dt.timezone())
-            .unwrap()
+        let naive = week_start.and_hms_opt(0, 0, 0).unwrap();
+        Self::localize(naive, &dt, false)
     }
 
     fn bucket_month<T: TimeZone>(&self, dt: DateTime<T>) -> DateTime<T> {
-        dt.date_naive()
+        let naive = dt
+            .date_naive()
             .with_day(1)
             .unwrap()
             .and_hms_opt(0, 0, 0)
-            .unwrap()
-            .and_local_timezone(dt.timezone())
-            .unwrap()
+            .unwrap();
+        Self::localize(naive, &dt, false)
     }
 
     fn bucket_year<T: TimeZone>(&self, dt: DateTime<T>) -> DateTime<T> {
-        dt.date_naive()
+        let naive = dt
+            .date_naive()
             .with_month(1)
             .unwrap()
             .with_day(1)
             .unwrap()
             .and_hms_opt(0, 0, 0)
-            .unwrap()
-            .and_local_timezone(dt.timezone())
-            .unwrap()
+            .unwrap();
+        Self::localize(naive, &dt, false)
+    }
+
+    /// Interprets the local wall-clock time `naive` (the start of the bucket containing `dt`) in
+    /// `dt`'s timezone without panicking at DST transitions.
+    ///
+    /// - A repeated local time (clocks set back) starts the bucket at its first occurrence; with
+    ///   `within_repetition` (hour buckets) the second occurrence is used when `dt` already lies in it.
+    /// - A skipped local time (clocks set forward) starts the bucket at the transition, the first valid
+    ///   local time after it.
+    fn localize<T: TimeZone>(
+        naive: NaiveDateTime,
+        dt: &DateTime<T>,
+        within_repetition: bool,
+    ) -> DateTime<T> {
+        match naive.and_local_timezone(dt.timezone()) {
+            LocalResult::Single(start) => start,
+            LocalResult::Ambiguous(first, second) => {
+                if within_repetition && second <= *dt {
+                    second
+                } else {
+                    first
+                }
+            }
+            LocalResult::None => {
+                // `naive` was skipped: the bucket starts at the transition itself. Find the first
+                // UTC second whose local time is not before `naive`, between the instant `naive`
+                // would denote under dt's own offset (before the transition) and dt (after it).
+                let tz = dt.timezone();
+                let local_of = |utc: NaiveDateTime| utc + tz.offset_from_utc_datetime(&utc).fix();
+                let mut lo = naive - dt.offset().fix();
+                let mut hi = dt.naive_utc();
+                while (hi - lo).num_seconds() > 1 {
+                    let mid = lo + chrono::Duration::seconds((hi - lo).num_seconds() / 2);
+                    if local_of(mid) >= naive {
+                        hi = mid;
+                    } else {
+                        lo = mid;
+                    }
+                }
+                tz.from_utc_datetime(&hi)
+            }
+        }
     }
 }
 
